@@ -313,3 +313,40 @@ Proof.
   rewrite (channel_writer_is_sample_writer enc_block md5 p o rate bps ch tc ts wc ws chunks Hwf Hnew Hs Et Hchunks) in Hrun.
   exact (proj1 (sample_writer_metadata_read enc_block md5 H1 H2 p u Hu o rate bps ch ts ws _ f Hwf Hpl Hs0 Hs Hrun Hfit)).
 Qed.
+
+(* ... and the typed view of the finished file for the other two front-ends *)
+Theorem byte_writer_file_typed : forall enc_block md5 p,
+  (forall l, length (md5 l) = 16%nat) -> (forall l, Forall (fun b => b < 256) (md5 l)) ->
+  forall (u : list N -> bool) en o rate bps ch tb wb chunks f,
+  options_wf o -> Forall plain (o_metadata o) -> seektables (o_metadata o) = 0%nat ->
+  byte_new p en [] o rate bps ch tb = Ok wb -> Forall byte_ok (concat chunks) ->
+  byte_run enc_block md5 p wb chunks = Ok f -> counters_fit (f_enc f) ->
+  exists meta',
+    f_stream f = meta' ++ frames_bytes (f_enc f) /\
+    FlacMeta.BlockList.write_blocks (FlacMeta.Blocks.BStreaminfo (convM (f_si f)) :: map convB (f_blocks f)) = Ok meta' /\
+    Forall (FlacMeta.Blocks_level.ty_block u) (FlacMeta.Blocks.BStreaminfo (convM (f_si f)) :: map convB (f_blocks f)) /\
+    Forall FlacMeta.Blocks_level.canon_block (FlacMeta.Blocks.BStreaminfo (convM (f_si f)) :: map convB (f_blocks f)).
+Proof.
+  intros enc_block md5 p H1 H2 u en o rate bps ch tb wb chunks f Hwf Hpl Hs0 Hnew Hbytes Hrun Hfit.
+  destruct (FlacE2E.Transfer.byte_new_sample_new p en o rate bps ch tb wb Hnew) as (ts & ws & Hs & Et).
+  rewrite (byte_writer_is_sample_writer enc_block md5 p en o rate bps ch tb ts wb ws chunks Hwf Hnew Hs Et Hbytes) in Hrun.
+  exact (sample_writer_file_typed enc_block md5 H1 H2 p u o rate bps ch ts ws _ f Hwf Hpl Hs0 Hs Hrun Hfit).
+Qed.
+
+Theorem channel_writer_file_typed : forall enc_block md5 p,
+  (forall l, length (md5 l) = 16%nat) -> (forall l, Forall (fun b => b < 256) (md5 l)) ->
+  forall (u : list N -> bool) o rate bps ch tc wc chunks f,
+  options_wf o -> Forall plain (o_metadata o) -> seektables (o_metadata o) = 0%nat ->
+  channel_new p [] o rate bps ch tc = Ok wc -> Forall (chunk_ok (N.to_nat ch)) chunks ->
+  channel_run enc_block md5 p wc chunks = Ok f -> counters_fit (f_enc f) ->
+  exists meta',
+    f_stream f = meta' ++ frames_bytes (f_enc f) /\
+    FlacMeta.BlockList.write_blocks (FlacMeta.Blocks.BStreaminfo (convM (f_si f)) :: map convB (f_blocks f)) = Ok meta' /\
+    Forall (FlacMeta.Blocks_level.ty_block u) (FlacMeta.Blocks.BStreaminfo (convM (f_si f)) :: map convB (f_blocks f)) /\
+    Forall FlacMeta.Blocks_level.canon_block (FlacMeta.Blocks.BStreaminfo (convM (f_si f)) :: map convB (f_blocks f)).
+Proof.
+  intros enc_block md5 p H1 H2 u o rate bps ch tc wc chunks f Hwf Hpl Hs0 Hnew Hchunks Hrun Hfit.
+  destruct (FlacE2E.Transfer.channel_new_sample_new p o rate bps ch tc wc Hnew) as (ts & ws & Hs & Et).
+  rewrite (channel_writer_is_sample_writer enc_block md5 p o rate bps ch tc ts wc ws chunks Hwf Hnew Hs Et Hchunks) in Hrun.
+  exact (sample_writer_file_typed enc_block md5 H1 H2 p u o rate bps ch ts ws _ f Hwf Hpl Hs0 Hs Hrun Hfit).
+Qed.
